@@ -33,6 +33,14 @@ var orgOf = map[string]string{
 	"attacker.co.uk":     "attacker.co.uk",
 	"co.uk":              "co.uk",
 	"uk":                 "uk",
+	// internationalised members (keys: lower-case A-labels, the form DNS and the
+	// Public Suffix List use); neither name matches any rule of the list but "org"
+	"xn--bcher-kva.example.org":      "example.org", // bücher.example.org
+	"mail.xn--bcher-kva.example.org": "example.org",
+	"xn--mnchen-3ya.example.org":     "example.org", // münchen.example.org
+	"bucher.example.org":             "example.org", // NOT bücher: another domain
+	"xn--bcher-kva.org":              "xn--bcher-kva.org", // bücher.org
+	"mail.xn--bcher-kva.org":         "xn--bcher-kva.org",
 }
 
 // publicSuffix lists the members of the set that are public suffixes.
@@ -43,6 +51,8 @@ var suffixOf = map[string]string{
 	"example.org": "org", "mail.example.org": "org", "other.example.org": "org", "a.mail.example.org": "org",
 	"notexample.org": "org", "example.com": "com", "mail.example.com": "com",
 	"victim.co.uk": "co.uk", "mail.victim.co.uk": "co.uk", "attacker.co.uk": "co.uk",
+	"xn--bcher-kva.example.org": "org", "mail.xn--bcher-kva.example.org": "org", "xn--mnchen-3ya.example.org": "org",
+	"bucher.example.org": "org", "xn--bcher-kva.org": "org", "mail.xn--bcher-kva.org": "org",
 }
 
 // lowerASCII: domain names are compared case-insensitively (RFC 7489
@@ -66,9 +76,161 @@ func hasUpper(s string) bool {
 	return false
 }
 
+// ---- spellings of one domain ----
+//
+// The model knows the members of the fixed set by their canonical spelling
+// (lower-case A-labels, no trailing dot) and accepts exactly these other
+// spellings as THE SAME domain, each beyond doubt and decided by the tables
+// below only (no IDNA / Unicode library, no maddy normaliser):
+//   - ASCII letters in any case (RFC 4343; A-labels and the ACE prefix too: RFC 5890 2.3.2.1);
+//   - one trailing dot: the absolute notation of the same name (RFC 1034 3.1);
+//   - the U-label instead of its A-label (RFC 5890 2.3.2.1: two forms of one label;
+//     RFC 7489 6.6.1: a From domain with non-ASCII characters is converted to A-labels);
+//   - the U-label in Unicode Normalization Form D (RFC 5891 5.2: the lookup side
+//     normalises to NFC before anything else; judgeNFD switches the class off).
+// "bucher" (no diaeresis) is deliberately in the set as a different domain.
+var uLabelOf = map[string]string{ // A-label -> U-label (NFC, lower case)
+	"xn--bcher-kva":  "b\u00fccher",
+	"xn--mnchen-3ya": "m\u00fcnchen",
+}
+var nfdOf = map[string]string{ // A-label -> U-label in NFD (u + U+0308 COMBINING DIAERESIS)
+	"xn--bcher-kva":  "bu\u0308cher",
+	"xn--mnchen-3ya": "mu\u0308nchen",
+}
+
+// judgeNFD: generate (and therefore judge) NFD spellings of U-labels.
+const judgeNFD = true
+
+var aLabelOf = func() map[string]string {
+	m := map[string]string{}
+	for a, u := range uLabelOf {
+		m[u] = a
+	}
+	for a, u := range nfdOf {
+		m[u] = a
+	}
+	return m
+}()
+
+func isASCII(s string) bool {
+	for i := 0; i < len(s); i++ {
+		if s[i] >= 0x80 {
+			return false
+		}
+	}
+	return true
+}
+
+// canon returns the canonical spelling of a domain of the fixed set. ASCII
+// names need no table (case and trailing dot only); a label with non-ASCII
+// characters must be one of the hand-written U-label spellings.
+func canon(d string) string {
+	s := strings.TrimSuffix(lowerASCII(d), ".")
+	if isASCII(s) {
+		return s
+	}
+	ls := strings.Split(s, ".")
+	for i, l := range ls {
+		if isASCII(l) {
+			continue
+		}
+		a, ok := aLabelOf[l]
+		if !ok {
+			panic("c07 model: label outside the hand-written spelling table: " + d)
+		}
+		ls[i] = a
+	}
+	return strings.Join(ls, ".")
+}
+
+// Spelling kinds the generators draw (spell).
+const (
+	spALabel      = iota // canonical
+	spALabelUpper        // XN--BCHER-KVA.EXAMPLE.ORG
+	spULabel             // bücher.example.org
+	spULabelMixed        // Bücher.Example.ORG (ASCII letters only change case)
+	spNFD                // bu + U+0308 + cher.example.org
+	spKinds
+)
+
+func upperFirstASCII(l string) string {
+	if l != "" && l[0] >= 'a' && l[0] <= 'z' {
+		return string(l[0]-'a'+'A') + l[1:]
+	}
+	return l
+}
+
+// spell writes the canonical domain c in the given spelling kind, with or
+// without a trailing dot. Domains without an A-label have only the case kinds.
+func spell(c string, kind int, dot bool) string {
+	ls := strings.Split(c, ".")
+	for i, l := range ls {
+		switch kind {
+		case spALabelUpper:
+			ls[i] = strings.ToUpper(l) // ASCII only
+		case spULabel, spULabelMixed:
+			if u, ok := uLabelOf[l]; ok {
+				l = u
+			}
+			if kind == spULabelMixed {
+				l = upperFirstASCII(l)
+				if i == len(ls)-1 {
+					l = strings.ToUpper(l) // the TLD of the fixed set is ASCII
+				}
+			}
+			ls[i] = l
+		case spNFD:
+			if u, ok := nfdOf[l]; ok && judgeNFD {
+				ls[i] = u
+			} else if u, ok := uLabelOf[l]; ok {
+				ls[i] = u
+			}
+		}
+	}
+	s := strings.Join(ls, ".")
+	if dot {
+		s += "."
+	}
+	return s
+}
+
+// formOf names the form a spelling is written in (signature cause class).
+func formOf(d string) string {
+	switch {
+	case strings.Contains(d, "\u0308"):
+		return "nfd"
+	case !isASCII(d):
+		return "u-label"
+	case strings.Contains(lowerASCII(d), "xn--"):
+		return "a-label"
+	}
+	return "ascii"
+}
+
+// spellDiff says in which respects two spellings of one domain differ, apart
+// from the case of ASCII letters (signature cause class: a small fixed set).
+func spellDiff(x, y string) string {
+	var parts []string
+	if fx, fy := formOf(x), formOf(y); fx != fy {
+		if fx == "nfd" || fy == "nfd" {
+			parts = append(parts, "nfd")
+		} else {
+			parts = append(parts, "a-label-vs-u-label")
+		}
+	}
+	if strings.HasSuffix(x, ".") != strings.HasSuffix(y, ".") {
+		parts = append(parts, "trailing-dot")
+	}
+	return strings.Join(parts, "+")
+}
+
+// respelled: written in a form other than what DNS itself would show
+// (U-label, NFD, trailing dot).
+func respelled(d string) bool { return !isASCII(d) || strings.HasSuffix(d, ".") }
+
 // orgDomain returns the organisational domain and whether d is in the table.
 func orgDomain(d string) (string, bool) {
-	o, ok := orgOf[lowerASCII(d)]
+	o, ok := orgOf[canon(d)]
 	return o, ok
 }
 
@@ -77,9 +239,9 @@ func alignedRef(from, auth, mode string) bool {
 	if auth == "" || from == "" {
 		return false
 	}
-	f, a := lowerASCII(from), lowerASCII(auth)
+	f, a := canon(from), canon(auth)
 	if mode == "s" {
-		return f == a
+		return f == a // identical: the same domain, however it is spelled
 	}
 	fo, ok1 := orgOf[f]
 	ao, ok2 := orgOf[a]
@@ -96,12 +258,15 @@ func relation(from, auth string) string {
 		return "no-domain"
 	}
 	rel := ""
-	f, a := lowerASCII(from), lowerASCII(auth)
+	f, a := canon(from), canon(auth)
 	switch {
 	case from == auth:
 		rel = "identical"
-	case f == a:
+	case lowerASCII(from) == lowerASCII(auth):
 		rel = "case-variant"
+	case f == a:
+		// one domain in two spellings that differ in more than letter case
+		return "respelled(" + spellDiff(from, auth) + ")"
 	case publicSuffix[a] && strings.HasSuffix(f, "."+a):
 		rel = "public-suffix-of-from"
 	case publicSuffix[f] && strings.HasSuffix(a, "."+f):
@@ -120,16 +285,21 @@ func relation(from, auth string) string {
 	if rel != "identical" && rel != "case-variant" && (hasUpper(from) || hasUpper(auth)) {
 		rel += "+mixedcase"
 	}
+	if rel != "identical" && rel != "case-variant" && (respelled(from) || respelled(auth)) {
+		rel += "+respelled"
+	}
 	return rel
 }
 
 // relRank orders relations from "nearest to the From domain" to "farthest";
 // signatures name the nearest identifier only (one cause class per witness).
-var relRank = []string{"identical", "case-variant", "parent-of-from", "subdomain-of-from", "sibling", "shares-multilabel-suffix", "public-suffix-of-from", "registered-under-from-suffix", "unrelated", "no-domain"}
+var relRank = []string{"identical", "case-variant", "respelled", "parent-of-from", "subdomain-of-from", "sibling", "shares-multilabel-suffix", "public-suffix-of-from", "registered-under-from-suffix", "unrelated", "no-domain"}
 
 func nearness(id string) int {
 	rel := id[strings.Index(id, ":")+1:]
-	rel = strings.TrimSuffix(rel, "+mixedcase")
+	if i := strings.IndexAny(rel, "+("); i >= 0 {
+		rel = rel[:i] // drop the spelling qualifiers
+	}
 	for i, r := range relRank {
 		if r == rel {
 			return i
@@ -237,6 +407,9 @@ type expect struct {
 	// identifiers that justify / would have to justify a pass
 	AlignedIDs []string
 	PassingIDs []string
+	// Spelling classes (evidence counters only): respects in which a passing
+	// identifier that is the From domain is spelled differently from it, under strict mode.
+	StrictRespelled []string
 }
 
 const (
@@ -256,7 +429,7 @@ func reference(pt *point) expect {
 		return ex
 	}
 	from := pt.From
-	lf := lowerASCII(from)
+	lf := canon(from)
 	org, ok := orgOf[lf]
 	if !ok {
 		panic("c07 model: From domain outside the fixed set: " + from)
@@ -280,6 +453,9 @@ func reference(pt *point) expect {
 			if alignedRef(from, d.Domain, adkim) {
 				ex.Aligned = true
 				ex.AlignedIDs = append(ex.AlignedIDs, id)
+				if adkim == "s" && lowerASCII(from) != lowerASCII(d.Domain) {
+					ex.StrictRespelled = append(ex.StrictRespelled, strings.Split(spellDiff(from, d.Domain), "+")...)
+				}
 			}
 		}
 	}
@@ -295,6 +471,9 @@ func reference(pt *point) expect {
 		if alignedRef(from, spfIdentity(pt.SPF), aspf) {
 			ex.Aligned = true
 			ex.AlignedIDs = append(ex.AlignedIDs, id)
+			if aspf == "s" && lowerASCII(from) != lowerASCII(spfIdentity(pt.SPF)) {
+				ex.StrictRespelled = append(ex.StrictRespelled, strings.Split(spellDiff(from, spfIdentity(pt.SPF)), "+")...)
+			}
 		}
 	}
 	sortByNearness(ex.PassingIDs)
